@@ -53,7 +53,7 @@ func rprop_dense_with_gradient(evalGradient DenseGradientF, x0 DenseFloat64Vecto
   }
   gradient_is_nan := func(gradient DenseFloat64Vector) bool {
     for i := 0; i < gradient.Dim(); i++ {
-      if math.IsNaN(gradient.ConstAt(i).GetFloat64()) {
+      if math.IsNaN(gradient.ConstAt(i).GetFloat64()) || math.IsInf(gradient.ConstAt(i).GetFloat64(), 0) {
         return true
       }
     }
@@ -72,6 +72,7 @@ func rprop_dense_with_gradient(evalGradient DenseGradientF, x0 DenseFloat64Vecto
       break;
     }
     for {
+      moved := false
       // update x
       for i := 0; i < x1.Dim(); i++ {
         if gradient_new[i] != 0.0 {
@@ -84,6 +85,13 @@ func rprop_dense_with_gradient(evalGradient DenseGradientF, x0 DenseFloat64Vecto
         if math.IsNaN(x2.ConstAt(i).GetFloat64()) {
           return x2, fmt.Errorf("NaN value detected")
         }
+        if x2[i] != x1[i] {
+          moved = true
+        }
+      }
+      if !moved {
+        // the step sizes have been reduced until x does not change any more
+        return x1, fmt.Errorf("step size underflow: no valid step found")
       }
       // compute partial derivatives and update x
       if err := evalGradient(x2, gradient_new); err != nil {
